@@ -24,6 +24,10 @@ func init() {
 		Mutants: []Mutant{
 			{ID: "C10-scan-fresh-only", Desc: "ssh client messages looked for in the latest read only", Rule: "C10/scan-accumulated",
 				Edits: []Edit{{File: "channel/auth.go", Old: "err = c.sshMessageHandler(b)", New: "err = c.sshMessageHandler(nb)"}}},
+			{ID: "C10-passphrase-defaults-to-password", Desc: "in-channel auth data: an empty key passphrase falls back to the account password", Rule: "C10/auth-data-wiring",
+				Edits: []Edit{{File: "transport/transport.go", Old: "\td.PrivateKeyPassPhrase = sshTransport.GetSSHArgs().PrivateKeyPassPhrase\n", New: "\td.PrivateKeyPassPhrase = sshTransport.GetSSHArgs().PrivateKeyPassPhrase\n\tif d.PrivateKeyPassPhrase == \"\" {\n\t\td.PrivateKeyPassPhrase = d.Password\n\t}\n"}}},
+			{ID: "C10-ansi-runs-to-bel", Desc: "OSC branch of the ANSI pattern accepts anything up to the next BEL", Rule: "C10/ansi-bounded",
+				Edits: []Edit{{File: "util/bytes.go", Old: "(?:;[a-zA-Z\\\\d]*)*)?\" +", New: "(?:;[^\\u0007]*)*)?\" +"}}},
 			{ID: "C10-retry-bound-3", Desc: "password retry bound 3", Rule: "C10/at-most-twice",
 				Edits: []Edit{{File: "channel/auth.go", Old: "\tpasswordSeenMax   = 2", New: "\tpasswordSeenMax   = 3"}}},
 			{ID: "C10-username-gets-password", Desc: "telnet answers the user-name prompt with the password", Rule: "C10/credential-prompt",
@@ -110,6 +114,10 @@ func credentialOfParam(c *Ctx, fn *ssa.Function, idx int, depth int) string {
 }
 
 func runC10(c *Ctx, r *Report) {
+	r.Rule("C10/ansi-bounded", "what the read loop strips cannot span the login prompt: no unbounded repetition of the escape-sequence pattern admits ESC or newline", 1)
+	checkANSIPatternBounded(c, r, "C10/ansi-bounded")
+	r.Rule("C10/auth-data-wiring", "InChannelAuthData fills user, password and passphrase each from its own setting", 1)
+	checkAuthDataWiring(c, r, "C10/auth-data-wiring")
 	r.Rule("C10/no-double-close", "a driver Open does not close the channel again on the failing edge of Channel.Open (which closed it already; Close is not idempotent)", 2)
 	checkNoDoubleChannelClose(c, r, "C10/no-double-close")
 	r.Rule("C10/error-classes", "each failure site named by the property wraps the sentinel the property names (timeout / auth / connection / privilege / NETCONF / operation / platform error)", 5)
